@@ -106,6 +106,9 @@ def run(ctx):
             if msg.startswith("HANG"):
                 ctx.report("C09 deadlock", "concurrent round %s did not finish (GOMAXPROCS=%d)" % (f.get("round"), gmp),
                            {"kind": "hang", "gomaxprocs": gmp, "dump": msg[:20000]})
+            elif msg.startswith("CHAN:"):
+                ctx.report("C09 channel create/delete not serializable", "round %s: %s" % (f.get("round"), msg[:500]),
+                           {"kind": "fatal", "gomaxprocs": gmp, "msg": msg[:5000]})
             elif msg.startswith("OBS"):
                 ctx.notes.append(msg[:300])   # anomalies of reads that ran DURING the concurrency: not stated by C09
             else:
